@@ -22,6 +22,7 @@ RULE = ('Every library function except datetimeNow/datetimeToday/mathRandom/syst
         'Oracle: same outcome kind (value / failed call / error class), results equal by numeric value (bool distinct from number), '
         'post-call arguments equal, same aliasing of the result to the arguments. Non-trivial: the call succeeded in some spelling and an '
         'argument contained an integral number; distinct by content hash. Classes report per-function ok/failed counts.')
+RULE += ' Focus family: the couplings a uniformly drawn call rarely contains - dataAggregate over category columns mixing n with the strings that spell it and over values whose mean is not representable or that lie near 9e14 (all six functions), datetimeNew with huge cancelling components, equal integers held in two distinct host objects, dataTop with float counts, mathRound of 13-15 digit integers.'
 RULE += ' Order family: ~575 calls over 23 special values (both zeros, int/float twins, 2**53, 1e21 ...) evaluated in fresh interpreter processes in four different orders must agree call by call.'
 RULE += " Also: dataAggregate category columns mixing 1, '1', '1.0'; eleven or more values just below 1e15 averaged; datetimeNew with time components of magnitude 1e3..1e12 that cancel each other; large odd millisecond offsets. Results are compared exactly below 2**53 (1e-12 relative beyond it)."
 ASSUMPTIONS = [
@@ -545,12 +546,61 @@ def check_order_independence(seed):
     return len(calls), len(orders)
 
 
+# ---- focused cases: the couplings that a uniformly drawn call rarely contains -------------------------------------------------------------------------
+_agg_measures = st.lists(st.fixed_dictionaries({'field': st.just('b'), 'function': st.sampled_from(['count', 'sum', 'min', 'max', 'average', 'stddev', 'stddev'])},
+                                               optional={'name': st.sampled_from(['m1', 'x'])}), min_size=1, max_size=2, unique_by=lambda m: m.get('name', 'b'))
+_agg_small = st.lists(st.fixed_dictionaries({'a': st.sampled_from([1, 2, 1, '1', '1.0', '2', '2.0', 3]), 'b': st.sampled_from([1, 1, 9, 2, 4, 7, 10, 3, 0, -5, 446475, -911006, 819864])}),
+                      min_size=2, max_size=9)
+_agg_big = st.lists(st.fixed_dictionaries({'a': st.sampled_from([0, 1]), 'b': st.integers(0, 60).map(lambda k: 9 * 10 ** 14 + k)}), min_size=3, max_size=14)
+_same_twice = st.sampled_from([257, 1000, 10 ** 6, -6, -1000, 2 ** 40, 255, 256, 3, 10 ** 15]).map(lambda n: [n, int(str(n))])      # (two distinct host objects)
+
+
+@st.composite
+def focus_strategy(draw):
+    import random
+    crnd = random.Random(draw(st.integers(0, 2 ** 31)))
+    k = crnd.random()
+    if k < 0.45:
+        agg = {'measures': draw(_agg_measures)}
+        if crnd.random() < 0.7:
+            agg['categories'] = ['a']
+        rows_ = draw(_agg_small if crnd.random() < 0.7 else _agg_big)
+        if any(m['function'] == 'sum' for m in agg['measures']) and rows_ and rows_[0]['b'] > 10 ** 14:
+            agg['measures'] = [dict(m, function='average') if m['function'] == 'sum' else m for m in agg['measures']]      # (the total passes 2**53)
+        return 'dataAggregate', [rows_, agg]
+    if k < 0.65:
+        ex = crnd.randint(3, 12)
+        big = crnd.choice([1, -1]) * crnd.randint(10 ** ex, 10 ** (ex + 1))
+        small = crnd.randint(-90, 90)
+        kind = crnd.choice(['hour-minute', 'minute-second', 'second-millisecond', 'hour-second'])
+        h = mi = sec = ms = 0
+        if kind == 'hour-minute':
+            h, mi = big, -60 * big + small
+        elif kind == 'minute-second':
+            mi, sec = big, -60 * big + small
+        elif kind == 'second-millisecond':
+            sec, ms = big // 10, -1000 * (big // 10) + small
+        else:
+            h, sec = big // 10, -3600 * (big // 10) + small
+        return 'datetimeNew', [crnd.randint(1990, 2030), crnd.randint(1, 12), crnd.randint(1, 28), h, mi, sec, ms]
+    if k < 0.8:
+        pair = draw(_same_twice)
+        how = crnd.choice(['systemIs', 'systemIs', 'systemCompare', 'arrayIndexOf', 'mathMax'])
+        if how == 'arrayIndexOf':
+            return how, [[0, pair[0], 5], pair[1]]
+        return how, pair
+    if k < 0.9:
+        return 'dataTop', [draw(rows), crnd.choice([1, 2, 3]), crnd.choice([None, ['a'], ['a', 'c']])][:crnd.choice([2, 3, 3])]
+    return 'mathRound', [crnd.choice([1, -1]) * crnd.randint(10 ** 12, 10 ** 15 - 1), crnd.choice([0, 1, 2, 3, 4, 6])]
+
+
 def plan(tier):
     names = function_names()
     k = 14 if tier == 'quick' else 16
     specs = [{'kind': 'calls', 'n': 2500 if tier == 'quick' else 60000, 'k': i, 'names': names[i::k]} for i in range(k)]
     specs += [{'kind': 'ops', 'n': 8000 if tier == 'quick' else 100000, 'k': i} for i in range(2 if tier == 'quick' else 4)]
     specs += [{'kind': 'order', 'k': i} for i in range(1 if tier == 'quick' else 8)]
+    specs += [{'kind': 'focus', 'n': 2500 if tier == 'quick' else 40000, 'k': i} for i in range(1 if tier == 'quick' else 4)]
     return specs
 
 
@@ -563,6 +613,13 @@ def run_shard(ctx, spec):
             ctx.violation(v)
             ncalls, norders = 0, 0
         ctx.case(digest(['order', seed]), True, ['order-independence', 'calls=%d' % ncalls, 'orders=%d' % norders], {'seed': seed, 'calls': ncalls, 'orders': norders})
+        return
+    if spec['kind'] == 'focus':
+        def fprop(call):
+            name, args = call
+            ok, kind = check_call(name, args)
+            ctx.case(digest(enc([name, args])), ok, ['focus:%s:%s' % (name, 'ok' if ok else 'failed')], {'fn': name, 'args': args})
+        run_hypothesis(ctx, fprop, [focus_strategy()], spec['n'], salt=200 + spec['k'])
         return
     if spec['kind'] == 'calls':
         def prop(call):
